@@ -2,7 +2,7 @@
    (C17, C13, C18) to OCaml.  Directives: ExtractCommon.v (trusted base). *)
 From Amgcl Require Import ExtractCommon.
 From Coq Require Import QArith Qcanon.
-From Amgcl Require Import Scalar QcInst Vec Crs Kernels KernelsProofs MatOps Relax Adapters.
+From Amgcl Require Import Scalar QcInst Vec Crs Kernels KernelsProofs MatOps Relax Adapters Composite.
 Separate Extraction
   QcInst.QcS Scalar.is_zero Scalar.smax Scalar.smin
-  Vec Crs Kernels KernelsProofs.Ax MatOps Relax Adapters.
+  Vec Crs Kernels KernelsProofs.Ax MatOps Relax Adapters Composite.
